@@ -11,7 +11,7 @@ T  full runs over structures x options (-d, -i, -c) x parameter files (remove_pe
 import json
 import os
 
-from .. import corpus, runbank, tlc, core, runner
+from .. import corpus, runbank, tlc, core, runner, covcoupling
 
 C = corpus
 
@@ -120,6 +120,13 @@ def run(ctx):
                           {"pdb": texts[m["input"]][1], "optargs": m["optargs"], "params": PARAMS.get(tag, [None])[0]})
     ctx.sample({"run": metas[0]})
     ctx.sample({"run": metas[-1]})
+    # ---- beyond the listed properties: the covalent-coupling rule behind coupling_effects (notes only) ------
+    real = []
+    for n in (["3SGB-subset", "1HPX", "4DFR", "3SGB"] if ctx.thorough() else ["3SGB-subset", "1HPX"]):
+        r = runner.run(corpus.test_pdb_text(n), ["-q"])
+        if r.exc is None:
+            real.append((n, r.mol))
+    covcoupling.run(ctx, real)
 
 
 def replay(ctx, path):
